@@ -178,6 +178,7 @@ def build_multifolder(path, rng, shape, codecs, extras=False, sizes=(1, 3000)):
     for i, m in enumerate(shape):
         filt = codecs[i % len(codecs)]
         with py7zr.SevenZipFile(path, "w" if i == 0 else "a", filters=filt) as z:
+            z.set_encoded_header_mode(False)      # raw header: damage_digest() can find the stored digests
             members = []
             for j in range(m):
                 data = rng.randbytes(rng.randrange(max(sizes[0], 24), sizes[1]))
@@ -192,6 +193,22 @@ def build_multifolder(path, rng, shape, codecs, extras=False, sizes=(1, 3000)):
         nf = z.header.main_streams.unpackinfo.numfolders
     assert nf == len(shape), (nf, shape)
     return folders, extra
+
+
+def damage_digest(raw, data):
+    """alter the stored CRC-32 of the member whose bytes are `data` (raw header), re-sealing the header CRCs: the
+    member decodes to its right bytes under any codec, and its per-member check fails"""
+    import struct
+    import zlib
+    ofs, size, _ = struct.unpack("<QQL", raw[12:32])
+    payload, hdr = raw[32:32 + ofs], bytearray(raw[32 + ofs:32 + ofs + size])
+    assert hdr[:1] == b"\x01"
+    crc = struct.pack("<L", zlib.crc32(data) & 0xFFFFFFFF)
+    pos = bytes(hdr).find(crc)
+    assert pos >= 0 and bytes(hdr).find(crc, pos + 1) < 0
+    hdr[pos] ^= 0x5A
+    start = struct.pack("<QQL", len(payload), len(hdr), zlib.crc32(bytes(hdr)) & 0xFFFFFFFF)
+    return raw[:8] + struct.pack("<L", zlib.crc32(start) & 0xFFFFFFFF) + start + payload + bytes(hdr)
 
 
 def damage_member(raw, data, at=None):
